@@ -97,6 +97,32 @@ func (c *Ctx) CacheCellsWrittenByOwners(ob *core.Obligation, r *Roles) {
 			}
 		}
 	}
+	// ... and the helpers those hand a posting (or the postings) on to
+	for changed := true; changed; {
+		changed = false
+		for f := range owners {
+			for _, c2 := range core.Calls(f) {
+				h := c2.Common().StaticCallee()
+				if h == nil || owners[h] || relOfFn(h) != relOfFn(f) {
+					continue
+				}
+				for _, prm := range h.Params {
+					t := prm.Type()
+					if typeShort(derefT(t)) == "Posting" || elemTypeName(t) == "Posting" {
+						owners[h] = true
+						changed = true
+					}
+				}
+				// or it is handed the fields of a posting one by one
+				for _, a := range c2.Common().Args {
+					if f := postingFieldOf(a); f != nil && (f == r.PostSrc || f == r.PostDst || f == r.PostAmt) && !owners[h] {
+						owners[h] = true
+						changed = true
+					}
+				}
+			}
+		}
+	}
 	n := 0
 	for _, fn := range c.P.ModuleFunctions() {
 		if relOfFn(fn) != "internal/interpreter" || owners[fn] {
